@@ -57,6 +57,9 @@ def parseReply (toks : List String) : Option ReplyKind :=
     match ← ints rest with
     | [leap, ref, off, disp, delay, iv, refid] =>
       if ref < 0 then none else some (.tracking (mkTracking leap ref off disp delay iv refid))
+    -- an optional 8th field: the report's source address as an IPv4 word (the daemon never reads it)
+    | [leap, ref, off, disp, delay, iv, refid, _ip4] =>
+      if ref < 0 then none else some (.tracking (mkTracking leap ref off disp delay iv refid))
     | _ => none
   | _ => none
 
@@ -68,6 +71,7 @@ def parseIter (toks : List String) : Option PollIter :=
       | "fnone" :: r => some (PhcFile.unreadable, r)
       | "funread" :: r => some (PhcFile.unreadable, r)
       | "fbad" :: r => some (PhcFile.unparsable, r)
+      | "fblank" :: r => some (PhcFile.unparsable, r)      -- empty / whitespace-only attribute: `parse::<i64>` fails
       | "fok" :: x :: r => x.toInt?.map fun i => (PhcFile.ok i, r)
       | _ => none : Option (PhcFile × List String))
     let reply ← parseReply rep
